@@ -169,10 +169,16 @@ func (Prop) Gen(seed int64, tier string) *harness.Case {
 	r := harness.Rand(seed)
 	var w Work
 	n := 2 + r.Intn(10)
+	if tier == "thorough" && r.Intn(2) == 0 {
+		n = 8 + r.Intn(16)
+	}
 	for i := 0; i < n; i++ {
 		w.Stmts = append(w.Stmts, r.Intn(len(templates)))
 	}
 	w.Envs = 2 + r.Intn(3)
+	if tier == "thorough" && r.Intn(3) == 0 {
+		w.Envs = 4 + r.Intn(3)
+	}
 	w.Reruns = 1 + r.Intn(3)
 	w.ErrTail = r.Intn(5) == 0
 	wb, _ := json.Marshal(w)
